@@ -421,8 +421,8 @@ class IndividualParameters:
 
         final_names = {}
         for name in df_names:
-            split = name.split("_")[0]
-            if split == name:  # e.g tau, xi, ...
+            split, sep, component = name.rpartition("_")
+            if not (sep and component.isdigit()):  # e.g tau, xi, tau_mean, ...
                 final_names[name] = name
             else:  # e.g sources_0 --> sources
                 if split not in final_names:
